@@ -23,7 +23,7 @@ IDENT_FNS = {'deref', 'deref_mut', 'unwrap', 'expect', 'as_ref', 'as_mut', 'as_s
              'from_residual', 'from_output', 'lock', 'into_inner'}
 # value-preserving conversions
 VALUE_FNS = {'clone', 'copied', 'cloned', 'into', 'from', 'try_into', 'try_from', 'to_owned', 'to_vec', 'into_iter',
-             'as_millis', 'unsigned_abs'}
+             'as_millis'}
 CMP_FNS = {'eq': 'Eq', 'ne': 'Ne', 'lt': 'Lt', 'le': 'Le', 'gt': 'Gt', 'ge': 'Ge'}
 ARITH_FNS = {'add': 'Add', 'sub': 'Sub'}
 NEG = {'Eq': 'Ne', 'Ne': 'Eq', 'Lt': 'Ge', 'Le': 'Gt', 'Gt': 'Le', 'Ge': 'Lt'}
